@@ -437,7 +437,7 @@ impl C18Strat for NoFast {
         r
     }
 }
-impl C18Strat for std::sync::RwLock<()> {
+impl C18Strat for arc_swap_verif_rt::sync::RwLock<()> {
     const GUARD_BY_VALUE: bool = false;
     fn cas_with_owned_guard(sw: &ArcSwapAny<Arc<Bomb>, Self>, cur: Arc<Bomb>, new: Arc<Bomb>) -> Guard<Arc<Bomb>, Self> {
         let r = sw.compare_and_swap(&cur, new);
@@ -594,7 +594,7 @@ pub fn c18() -> EnumResult {
                 ("FillFastSlots", c18_case::<NoFast>("FillFastSlots", g, inject)),
             ];
             if inject.starts_with("rcu-closure") {
-                runs.push(("RwLock", c18_case::<std::sync::RwLock<()>>("RwLock", g, inject)));
+                runs.push(("RwLock", c18_case::<arc_swap_verif_rt::sync::RwLock<()>>("RwLock", g, inject)));
             }
             for (name, r) in runs {
                 res.cases += 1;
